@@ -133,6 +133,8 @@ class _Regrid35(type(C02_CLASSES["RegriddingOperator"])):
         sh = _fullshape(doms)
         sp = case["space"] if case["space"] is not None else 0
         a0 = sum(len(d["shape"]) for d in doms[:sp])
+        if any(s < 2 for s in doms[sp]["shape"]):
+            return None                     # a single pixel carries no slope
         alpha = rng.randint(-3, 3)
         beta = [rng.randint(-3, 3) for _ in sh]
         x = np.zeros(sh)
